@@ -312,6 +312,78 @@ Proof.
     apply Step. apply (chain_same_update m2 t (ODict xd)); [exact Lt | apply nd_dict].
 Qed.
 
+(* ---------- prune_objects: the support is reachable from the trailer ---------- *)
+Lemma reach_tree_ref0 tr m :
+  (forall t par, page_tree_ref m par t -> reach tr m (root_id t) -> forall x, In x (ids t) -> reach tr m x) /\
+  (forall f par, Forall (page_tree_ref m par) f -> (forall k, In k f -> reach tr m (root_id k)) ->
+     forall x, In x (flat_map ids f) -> reach tr m x).
+Proof.
+  apply ptree_forest_ind.
+  - intros i par _ R x [<-|[]]. exact R.
+  - intros i ks Q par PT R x Hx. cbn [root_id] in R. destruct Hx as [<-|Hx]; [exact R|].
+    inversion PT as [|? ? dd ? L W Ty Kd Ct Pa F]; subst.
+    apply (Q (Some i) F); [|exact Hx]. intros k Hk. eapply reach_step; [exact R | exact L|].
+    cbn [refs_of]. fold (refs_of_dict dd). eapply EditProofsTree2.dict_get_refs; [exact Kd|].
+    cbn [refs_of]. apply in_flat_map. exists (ref_of k). split; [apply in_map; exact Hk|].
+    unfold ref_of. cbn [refs_of]. left. destruct (root_id k); reflexivity.
+  - intros par _ _ x [].
+  - intros k ks P Q par F R x Hx. inversion F as [|? ? Fk Fks]; subst. cbn [flat_map] in Hx. apply in_app_iff in Hx.
+    destruct Hx as [Hx|Hx].
+    + apply (P par Fk); [apply R; left; reflexivity | exact Hx].
+    + apply (Q par Fks); [intros k' Hk'; apply R; right; exact Hk' | exact Hx].
+Qed.
+
+Lemma reach_leads tr m o via d : leads m o via d -> (forall r, In r (refs_of o) -> reach tr m r) ->
+  forall y, In y via -> reach tr m y.
+Proof.
+  induction 1 as [d|i g o via d L H IH]; intros R y Hy; [destruct Hy|].
+  assert (Ri : reach tr m (i, g)) by (apply R; left; reflexivity).
+  destruct Hy as [<-|Hy]; [exact Ri|]. apply IH; [|exact Hy]. intros r Hr. eapply reach_step; [exact Ri | exact L | exact Hr].
+Qed.
+
+Lemma reach_deref_ids tr m : forall f o, (forall r, In r (refs_of o) -> reach tr m r) ->
+  forall y, In y (deref_ids m f o) -> reach tr m y.
+Proof.
+  induction f as [|f IH]; intros o R y Hy; destruct o as [| | | | | | | | |i g]; cbn [deref_ids] in Hy; try destruct Hy.
+  - subst y. apply R. left. reflexivity.
+  - destruct (lookup m (i, g)); destruct H.
+  - subst y. apply R. left. reflexivity.
+  - assert (Ri : reach tr m (i, g)) by (apply R; left; reflexivity).
+    destruct (lookup m (i, g)) as [o'|] eqn:L; [|destruct H].
+    apply (IH o'); [|exact H]. intros r Hr. eapply reach_step; [exact Ri | exact L | exact Hr].
+Qed.
+
+Lemma support_reach d t x : page_doc_ref d t -> tree_support d t x -> reach (d_trailer d) (d_objects d) x.
+Proof.
+  intros [ci [cg [cat [Wt [Rt [Lc [Wc [Pg [Nd [PT [ND [Hc NE]]]]]]]]]]]] Hx.
+  assert (Rc : reach (d_trailer d) (d_objects d) (ci, cg)).
+  { apply reach_root. eapply EditProofsTree2.dict_get_refs; [exact Rt|]. left. reflexivity. }
+  assert (Rids : forall y, In y (ids t) -> reach (d_trailer d) (d_objects d) y).
+  { apply (proj1 (reach_tree_ref0 _ _) t None PT).
+    eapply reach_step; [exact Rc | exact Lc|]. cbn [refs_of]. fold (refs_of_dict cat).
+    eapply EditProofsTree2.dict_get_refs; [exact Pg|]. unfold ref_of. cbn [refs_of]. left. destruct (root_id t); reflexivity. }
+  destruct Hx as [Hx|[Hx|[Hx|Hx]]].
+  - rewrite Rt in Hx. inversion Hx; subst. destruct x; exact Rc.
+  - apply Rids. exact Hx.
+  - destruct Hx as [id [o [via [dd [Hid [L [Ld Hv]]]]]]].
+    apply (reach_leads _ _ o via dd Ld); [|exact Hv]. intros r Hr.
+    eapply reach_step; [apply Rids; apply (proj1 leaves_ids); exact Hid | exact L | exact Hr].
+  - destruct Hx as [nd [dd [c [Hnd [L [_ [Gc Hv]]]]]]].
+    apply (reach_deref_ids _ _ (N.to_nat DEREF_LIMIT) c); [|exact Hv]. intros r Hr.
+    eapply reach_step; [apply Rids; exact Hnd | exact L|]. cbn [refs_of]. fold (refs_of_dict dd).
+    eapply EditProofsTree2.dict_get_refs; [exact Gc | exact Hr].
+Qed.
+
+Lemma prune_objects_ref d t d' r :
+  doc_wf d -> page_doc_ref d t -> prune_objects d = Some (d', r) -> page_doc_ref d' t.
+Proof.
+  intros W PD E. destruct (I_prune d d' r W E) as [_ [L1 [_ [T1 _]]]].
+  apply (page_doc_ref_frame_on d d' t PD).
+  split; [rewrite T1; destruct PD as [ci [cg [cat [Wt _]]]]; exact Wt|]. split; [rewrite T1; reflexivity|]. split.
+  - intros x Hx. apply stable_same. apply L1. eapply support_reach; eassumption.
+  - intros x o Hx L _. rewrite L1; [exact L | eapply support_reach; eassumption].
+Qed.
+
 (* ---------- one step ---------- *)
 (* the domain of a step on [page_doc_ref]: [tree_op_dom] with "a node of the tree or the catalog" widened to the SUPPORT of the
    tree: the catalog, the nodes, the reference objects a page id passes on the way to its dictionary and the object holding
@@ -325,8 +397,8 @@ Definition tree_op_dom_ref (d : doc) (t : ptree) (o : op) : Prop :=
   | _ => True
   end.
 
-(* the operations lifted so far: all of [step] but delete_object and prune_objects (and renumber_objects: [tree_op_dom_ref]) *)
-Definition lifted (o : op) : Prop := match o with DeleteObject _ | PruneObjects => False | _ => True end.
+(* the operations lifted so far: all of [step] but delete_object (and renumber_objects: [tree_op_dom_ref]) *)
+Definition lifted (o : op) : Prop := match o with DeleteObject _ => False | _ => True end.
 
 Lemma tree_support_contains d t x : tree_or_cat d t x -> tree_support d t x.
 Proof. intros [H|H]; [right; left; exact H | left; exact H]. Qed.
@@ -365,7 +437,9 @@ Proof.
   - destruct Lf.
   - (* remove_object *)
     destruct (remove_annot d id) as [d' ok] eqn:E. cbn [fst]. apply Hsame; [eapply remove_annot_stable | eapply remove_annot_chain]; exact E.
-  - destruct Lf.
+  - (* prune_objects *)
+    destruct (prune_objects d) as [[d' r]|] eqn:E; cbn [fst]; [|exact Hrefl].
+    split; [eapply prune_objects_ref; eassumption | exact Hh].
   - (* delete_pages *)
     destruct (delete_pages_tree_ref d t nums W PD Hh) as [d' [E [_ [PD' _]]]]. rewrite E. cbn [fst].
     split; [exact PD'|]. unfold hbound in *. pose proof (prune_all_height (sel (get_pages d) nums) t). lia.
